@@ -12,6 +12,7 @@ def specs_for(tier, seed):
         dict(pres="tensors", nreq=2, ce=1000, label="real graph, tensors, 2 requests exhaustive, no clean-up (ce=1000)"),
         dict(pres="components", nreq=1, ce=1, label="real graph, components, 1 request exhaustive, ce=1"),
         dict(pres="minimal", nreq=1, ce=3, label="real graph, minimal inputs, 1 request, ce=3"),
+        dict(pres="partial", nreq=2, ce=1000, requests="SHIFT", label="shift given by two components only: 2 requests over shift-related keys and helpers"),
         dict(pres="tensors", nreq=1, ce=1, mt=True, label="real graph, tensors, 1 request, memory threshold tiny"),
         dict(pres="tensors", nreq=5, ce=3, simulate=6, seed=seed + 1, emit=False, label="simulate 5 requests ce=3"),
         dict(pres="components", nreq=6, ce=2, simulate=6, seed=seed + 2, emit=False, label="simulate 6 requests ce=2 components"),
@@ -36,7 +37,14 @@ def run(tier, seed):
     run.info["graph"] = {"keys": len(graph["keys"]), "helpers": len(graph["helpers"]),
                          "paths": sum(graph["npaths"].values()), "guarded_keys": sorted(k for k, n in graph["npaths"].items() if n > 1)}
     plan = CC.Plan()
-    specs = CC.run_models(run, graph, specs_for(tier, seed), plan, opts)
+    shift_keys = [k for k in graph["keys"] + graph["helpers"] if k.startswith("beta") or k in
+                  ("gtt", "gtx", "gty", "gtz", "gdown4", "gup4", "nup4", "call:s_to_st", "call:Lie_beta:s_dd", "call:Lie_beta:st_u",
+                   "st_Riemann_down4", "st_Weyl_down4", "uup4", "gdet", "dttau")]
+    sp = specs_for(tier, seed)
+    for x in sp:
+        if x.get("requests") == "SHIFT":
+            x["requests"] = shift_keys
+    specs = CC.run_models(run, graph, sp, plan, opts)
     run.info["tlc_models"] = [{k: v for k, v in sp.items() if k != "requests"} for sp in specs]
     CC.execute(run, "C01", graph, plan, opts, seed, max_traces=250 if tier == "quick" else 3000)
     if tier == "thorough":
